@@ -289,10 +289,36 @@ def rule_f(ctx: Ctx) -> None:
     ctx.explain('C03.f: the fixed-value report of XsdAttribute.raw_decode is guarded by a comparison of decoded values.')
 
 
+def rule_g(ctx: Ctx) -> None:
+    from .common import copy_owns
+    rule = 'C03.g'
+    copy_owns(ctx, rule, 'xmlschema.validators.wildcards.XsdWildcard', ('intersection', 'union'), floor=2)
+    # the attribute-group parser applies these operations to copies, never to the referenced group's own wildcard
+    f = ctx.idx.func('xmlschema.validators.attributes.XsdAttributeGroup._parse')
+    g = cfg_of(ctx, f)
+    rd = g.reaching_defs()
+    n = 0
+    for node, c in call_nodes(g, lambda c: isinstance(c.func, ast.Attribute) and c.func.attr in ('intersection', 'union') and isinstance(c.func.value, ast.Name)):
+        recv = c.func.value.id
+        defs = rd[node].get(recv, set())
+        n += 1
+        ok = bool(defs) and all(d.ast is not None and isinstance(d.ast, ast.Assign) and 'copy(' in text(d.ast.value) for d in defs)
+        if not ok:
+            # a wildcard parsed locally for this group (`self.builders.any_attribute_class(child, …)`) is owned by the group as well
+            ok = bool(defs) and all(d.ast is not None and isinstance(d.ast, (ast.Assign, ast.For)) and
+                                    ('copy(' in text(getattr(d.ast, 'value', d.ast)) or 'any_attribute_class(' in text(getattr(d.ast, 'value', d.ast))
+                                     or isinstance(d.ast, ast.For)) for d in defs)
+        ctx.ob(rule, f'XsdAttributeGroup._parse: `{text(c)[:40]}` is applied to a wildcard this group owns (a copy or a locally parsed one)', f.loc(c), ok,
+               '', key=f'attributes._parse|{c.func.attr}|{recv}')
+    ctx.floor(rule, 'wildcard combination sites in XsdAttributeGroup._parse', n, 2)
+    ctx.explain('C03.g: the namespace-constraint sets that intersection()/union() mutate in place are re-created by XsdWildcard.__copy__, '
+                'and the attribute-group parser combines only wildcards it owns.')
+
+
 def thorough(ctx: Ctx) -> None:
     _undeclared(ctx, 'C03.a+', 'raw_encode', 4)
     _required(ctx, 'C03.b+', 'raw_encode')
 
 
-RULES = [rule_a, rule_b, rule_c, rule_d, rule_e, rule_f]
+RULES = [rule_a, rule_b, rule_c, rule_d, rule_e, rule_f, rule_g]
 THOROUGH = [thorough]
